@@ -81,6 +81,9 @@ func runCase(line string) string {
 	case "PM":
 		res, _ := hx.Guard(pDeadline, func() string { return runPM(f) })
 		return id + " " + res
+	case "PE":
+		res, _ := hx.Guard(pDeadline, func() string { return runPE(f) })
+		return id + " " + res
 	case "PW":
 		res, _ := hx.Guard(pDeadline, func() string { return runPW(f) })
 		return id + " " + res
